@@ -11,10 +11,13 @@ trip for one feature set.
 * `fixed`    : fields with `init=False` (fixed values)
 * `anyAttrs` : an `Attributes` map (`##any`, `##other`, …)
 * `inherit`  : an element var of declared class `C` holds an instance of a proper subclass (`xsi:type`)
+* `wildcard` : one list wildcard (`List[object]`, any `namespace`) per class, holding generic elements
+               (`AnyElement` trees without tails)
 
 Core Lean only (the driver evaluates the predicates on exported real universes and instances).
 -/
 import XsdataModel.Bind.F1
+import XsdataModel.Generic.Basic
 
 namespace Xs.Bind.FN
 open Py Xs.Bind Xs.Bind.F1
@@ -28,6 +31,7 @@ structure Feat where
   fixed : Bool := false
   anyAttrs : Bool := false
   inherit : Bool := false
+  wildcard : Bool := false
 deriving DecidableEq, Repr
 
 /-! ### metadata -/
@@ -96,6 +100,15 @@ def elemVarOK (ft : Feat) (Γ : Ctx) (m : XmlMeta) (ci : ClassInfo) (v : XmlVar)
      (metaOf Γ c (targetUri m.qname)).isSome) &&
   (v.init || fixedOK v) && fieldAgreesN ci v
 
+/-- a list wildcard: `List[object]` with default `[]`, no choices; its own (synthetic) qname leads
+`find_children` back to it and to nothing else -/
+def wildVarOK (m : XmlMeta) (ci : ClassInfo) (v : XmlVar) : Bool :=
+  v.isWildcard && v.listElement && v.init && !v.mixed && !v.tokens && !v.nillable && !v.isClazzUnion &&
+  v.wrapperQName.isNone && v.sequence.isNone && v.elements.isEmpty && v.clazz.isNone &&
+  decide (v.default = .listFactory) && decide (1 ≤ v.index) && !v.qname.isEmpty &&
+  decide (m.findChildren v.qname = [v]) && !m.wrappers.any (·.1 = v.qname) && m.text.isNone &&
+  fieldAgreesN ci v
+
 /-- an `Attributes` map: a `dict` field with default `{}` -/
 def mapVarOK (ci : ClassInfo) (v : XmlVar) : Bool :=
   v.isAttributes && v.init &&
@@ -124,7 +137,10 @@ def seqOK : Nat → List XmlVar → Bool
 /-- one exported `XmlMeta` of class `ci` -/
 def metaOK (ft : Feat) (Γ : Ctx) (ci : ClassInfo) (m : XmlMeta) : Bool :=
   decide (m.clazz = ci.id) && (!m.nillable || ft.nillable) && !m.qname.isEmpty &&
-  m.wildcards.isEmpty && m.choices.isEmpty &&
+  -- at most one wildcard, a list
+  (m.wildcards.isEmpty ||
+    (ft.wildcard && (match m.wildcards with | [wv] => wildVarOK m ci wv | _ => false))) &&
+  m.choices.isEmpty &&
   -- at most one `Attributes` map
   (m.anyAttributes.isEmpty ||
     (ft.anyAttrs && (match m.anyAttributes with | [av] => mapVarOK ci av | _ => false))) &&
@@ -134,7 +150,7 @@ def metaOK (ft : Feat) (Γ : Ctx) (ci : ClassInfo) (m : XmlMeta) : Bool :=
   m.attributeVars.all (fun v => attrVarOK ft m ci v || (decide (m.anyAttributes = [v]) && mapVarOK ci v)) &&
   decide ((m.attributeVars.map (·.qname)).Nodup) &&
   (match m.text with
-   | none => m.elementVars.all (elemVarOK ft Γ m ci)
+   | none => m.elementVars.all (fun v => elemVarOK ft Γ m ci v || decide (m.wildcards = [v]))
    | some tv => decide (m.elementVars = [tv]) && textVarOK ft ci tv) &&
   decide ((m.elementVars.map (·.index)).Nodup) &&
   decide ((m.elementVars.map (·.qname)).Nodup) &&
@@ -219,6 +235,34 @@ def primItemOK (var : XmlVar) (t : PT) : Val → Bool
       decide (var.default = .val (.str [])))
   | _ => false
 
+mutual
+/-- a generic element (`AnyElement`) in the form the parser builds, without tails: a name, a text
+(`""`, not `None`, when there is none; not white space only next to children), attributes the generic
+model keeps verbatim, children of the same form -/
+def canonAny (e : BEnv) (Γ : Ctx) : Val → Bool
+  | .any (some q) (some t) none a kids =>
+    !q.isEmpty && Xs.Generic.keysDistinct a &&
+    a.all (fun kv => anyAttrValOK kv.2 && !(kv.2.head? = some '{' && (kv.1 = xsiType || isDatatype Γ kv.2))) &&
+    (kids.isEmpty || t.isEmpty || !(e.py.strip t).isEmpty) && canonAnyList e Γ kids
+  | _ => false
+def canonAnyList (e : BEnv) (Γ : Ctx) : List Val → Bool
+  | [] => true
+  | v :: vs => canonAny e Γ v && canonAnyList e Γ vs
+end
+
+/-- an item of the list wildcard `wv` of `m`: a generic element that `ElementNode.child` hands to the
+wildcard (its name is no declared element or wrapper, lies in the namespaces of the wildcard and is
+not the qualified name of a known class, which `build_node` would instantiate instead; no `xsi:`
+control attributes) -/
+def wildItemOK (e : BEnv) (Γ : Ctx) (m : XmlMeta) (wv : XmlVar) : Val → Bool
+  | .any (some q) t tl a kids =>
+    decide (m.elements.find? (·.1 = q) = none) && !m.wrappers.any (·.1 = q) &&
+    matchNamespace wv.namespaces q &&
+    decide ((if wv.processContents ≠ "skip".toList then Γ.findType q else none) = none) &&
+    a.all (fun kv => decide (kv.1 ≠ xsiType) && decide (kv.1 ≠ xsiNil)) &&
+    canonAny e Γ (.any (some q) t tl a kids)
+  | _ => false
+
 /-- the name of a class survives as an `xsi:type` value (`prefix:name` resolved by
 `QNameConverter`): an NCName without white space -/
 def typeNameOK (e : BEnv) (t : QN) : Bool :=
@@ -256,6 +300,11 @@ def clsItemOK (var : XmlVar) (clsNillable : Bool) (rec : Val → Bool) : Val →
 def elemValOK (inh : Bool) (e : BEnv) (Γ : Ctx) (m : XmlMeta) (ci : ClassInfo) (var : XmlVar)
     (rec : ClassId → Option QN → Val → Bool) (x : Val) : Bool :=
   (var.init || fixedVal var x) &&
+  if var.isWildcard then
+    (match x with
+     | .list xs => xs.all (wildItemOK e Γ m var)
+     | _ => false)
+  else
   match var.clazz with
   | none =>
     (match primTypeOf var with
